@@ -40,6 +40,26 @@ fn fmt_specs<T: std::fmt::Display>(v: &T) -> usize {
         + format!("{:+#012}", v).len().min(1)
 }
 
+/// Formatting nests: a sink (a logger that stamps every chunk, a writer that keeps a context line) may format the same or
+/// another value of the library from inside its own `write_str`, while the outer `Display::fmt` is still running.
+struct NestingSink<'a, T: std::fmt::Display>(&'a T, usize, bool);
+impl<'a, T: std::fmt::Display> std::fmt::Write for NestingSink<'a, T> {
+    fn write_str(&mut self, s: &str) -> std::fmt::Result {
+        self.1 += s.len();
+        if !self.2 {
+            self.2 = true;
+            self.1 += format!("{}", self.0).len();
+        }
+        Ok(())
+    }
+}
+fn nested_fmt<T: std::fmt::Display>(v: &T) -> usize {
+    use std::fmt::Write;
+    let mut s = NestingSink(v, 0, false);
+    let _ = write!(s, "{}", v);
+    s.1.min(1)
+}
+
 /// Exercise everything reachable from a v1 result.
 fn v1_surface<E: Error + PartialResult + std::fmt::Debug + PartialEq>(r: &Result<ppp::v1::Header<'_>, E>) -> usize {
     let mut n = 0;
@@ -50,6 +70,7 @@ fn v1_surface<E: Error + PartialResult + std::fmt::Debug + PartialEq>(r: &Result
             n += h.addresses_str().len();
             n += h.to_string().len();
             n += fmt_specs(h) + fmt_specs(&h.addresses);
+            n += nested_fmt(h) + nested_fmt(&h.addresses);
             let o = h.to_owned();
             n += o.addresses_str().len() + o.protocol().len();
             n += (o == *h) as usize + (h.clone() == o) as usize;
@@ -59,7 +80,7 @@ fn v1_surface<E: Error + PartialResult + std::fmt::Debug + PartialEq>(r: &Result
         }
         Err(e) => {
             n += e.to_string().len();
-            n += fmt_specs(e);
+            n += fmt_specs(e) + nested_fmt(e);
             n += sink(e);
             n += e.source().map(|s| s.to_string().len()).unwrap_or(0);
             n += e.is_incomplete() as usize + e.is_complete() as usize;
@@ -134,7 +155,7 @@ fn v2_surface(r: &Result<ppp::v2::Header<'_>, ppp::v2::ParseError>) -> Result<us
             let o = h.to_owned();
             n += (o == *h) as usize + o.tlv_bytes().len() + o.address_bytes().len();
             n += h.to_string().len() + o.to_string().len();
-            n += fmt_specs(h) + fmt_specs(&o);
+            n += fmt_specs(h) + fmt_specs(&o) + nested_fmt(h);
             n += sink(&h.addresses) + sink(&h.command) + sink(&h.protocol) + sink(&h.version);
             n += h.addresses.len() + h.addresses.is_empty() as usize;
             if h.len() <= 600 {
@@ -142,7 +163,7 @@ fn v2_surface(r: &Result<ppp::v2::Header<'_>, ppp::v2::ParseError>) -> Result<us
             }
         }
         Err(e) => {
-            n += e.to_string().len() + sink(e) + e.source().map(|s| s.to_string().len()).unwrap_or(0);
+            n += e.to_string().len() + sink(e) + e.source().map(|s| s.to_string().len()).unwrap_or(0) + nested_fmt(e);
         }
     }
     Ok(n)
